@@ -93,17 +93,60 @@ Qed.
 
 (* ---- a refused Offer changes nothing — also when the cause is a marshal error or a storage-write error ---- *)
 Lemma faulty_offer_changes_nothing_l c s p sz k s' z :
-  step c s (LOfferF p sz k) = Some (s', z) ->
+  step c s (LOfferF p sz k) = Some (s', z) -> (blocking c = true -> sz <= cap c) ->
   kind c = Pers /\ lock s = Free /\
-  (size s + sz <= cap c -> z = k /\ s' = setp p (PRet (RErr k)) s) /\
+  (size s + sz <= cap c ->
+     z = k /\ s' = signal PendNone (setp p (PRet (RErr k)) s) /\
+     (waiting s = 0 -> s' = setp p (PRet (RErr k)) s) /\
+     (0 < waiting s -> waiting s' = waiting s - 1 /\ tok s' = true)) /\
   (size s + sz > cap c -> blocking c = false -> z = c_full /\ s' = setp p (PRet RFull) s) /\
   (size s + sz > cap c -> blocking c = true ->
      z = c_blocked /\ pget p (prods s') = Some (PInSelect sz) /\ waiting s' = waiting s + 1 /\
      faulty s' = faulty s ++ [(p, k)]) /\
   size s' = size s /\ items s' = items s /\ inflight s' = inflight s /\ acc s' = acc s /\ hand s' = hand s /\
-  tok s' = tok s /\ cons s' = cons s /\ held s' = held s /\ pool s' = pool s.
+  cons s' = cons s /\ held s' = held s /\ pool s' = pool s.
 Proof.
-  intros H. revert H. step_cases; rewrite ?pget_pset_eq;
-    (split; [reflexivity|]); (split; [reflexivity|]);
-    repeat split; intros; try reflexivity; try lia; try discriminate; try congruence.
+  intros H NO. revert H. unfold step, lock_free.
+  destruct (lock s) eqn:L; try discriminate.
+  destruct (pget p (prods s)) eqn:Hp; try discriminate.
+  destruct (kind c) eqn:K; try discriminate.
+  destruct (blocking c && (sz >? cap c)) eqn:OV; [exfalso; destruct (blocking c); [specialize (NO eq_refl); simpl in OV; lia|discriminate]|].
+  destruct (size s + sz >? cap c) eqn:F.
+  - destruct (blocking c) eqn:B; intros H; inversion H; subst; ss; rewrite ?pget_pset_eq;
+      repeat split; intros; try reflexivity; try lia; try discriminate.
+  - intros H. inversion H; subst. unfold signal, deliver.
+    destruct (waiting (setp p (PRet (RErr z)) s) =? 0) eqn:W; ss;
+      [|destruct (tok s) eqn:T; ss];
+      repeat split; intros; try reflexivity; try lia; try discriminate; auto.
+Qed.
+
+(* the repaired error path of a PARKED producer: past the capacity loop it returns its error and passes the wake-up on *)
+Lemma faulty_waiter_passes_wakeup_l c s p sz k s' z :
+  pget p (prods s) = Some (PLeftTok sz) -> find_id p (faulty s) = Some k -> size s + sz <= cap c ->
+  step c s (LRelockTok p) = Some (s', z) ->
+  z = k /\ s' = signal PendNone (setp p (PRet (RErr k)) s) /\
+  pget p (prods s') = Some (PRet (RErr k)) /\
+  size s' = size s /\ items s' = items s /\ acc s' = acc s /\
+  (waiting s = 0 -> waiting s' = 0 /\ tok s' = tok s /\ lock s' = Free) /\
+  (0 < waiting s -> waiting s' = waiting s - 1 /\ tok s' = true).
+Proof.
+  intros Hp Hf Fit H. revert H. unfold step, lock_free.
+  destruct (lock s) eqn:L; try discriminate. rewrite Hp, Hf.
+  destruct (size s + sz >? cap c) eqn:F; [lia|].
+  intros H. inversion H; subst. unfold signal, deliver.
+  destruct (waiting (setp p (PRet (RErr z)) s) =? 0) eqn:W; ss;
+    [|destruct (tok s) eqn:T; ss]; rewrite ?pget_pset_eq;
+    repeat split; intros; try reflexivity; try lia; try discriminate; auto.
+Qed.
+
+(* S1 repaired (fix f7a3004ea): with block_on_overflow the persistent queue refuses a request larger than the
+   capacity — faulty or not — before anything else, and changes nothing *)
+Lemma oversized_offer_refused_l c s p sz s' z :
+  kind c = Pers -> blocking c = true -> sz > cap c ->
+  (step c s (LOffer p sz) = Some (s', z) \/ exists k, step c s (LOfferF p sz k) = Some (s', z)) ->
+  z = c_toolarge /\ s' = setp p (PRet RTooLarge) s.
+Proof.
+  intros K B O [H|[k H]]; revert H; unfold step, lock_free, offer; rewrite K, B;
+    destruct (lock s); try discriminate; destruct (pget p (prods s)); try discriminate;
+    (destruct (sz >? cap c) eqn:E; [|lia]); simpl; intros H; inversion H; auto.
 Qed.
